@@ -660,6 +660,9 @@ def history_phase(ctx):
     for key in sorted(groups, key=repr):
         g = groups[key]
         ctx.pool_rng.shuffle(g)
+        # equal shapes next to each other: consecutive calls then receive THE SAME ndarray object with new content (a work array refilled in
+        # place) - what a single-entry cache keyed on the identity of its argument gets wrong
+        g.sort(key=lambda it: repr([(x.shape, x.dtype.str) for x in it[1] if hasattr(x, 'shape')]))
         for fn, a, k in g:
             if time.time() - t0 > budget:
                 break
